@@ -7,7 +7,13 @@
 (R) the deadlock schedule of the unsorted variant forced through the verif hooks:
     every holder is held after its first acquisition until all others have made
     theirs (repeated: Go's map order is random), watchdog 5 s + goroutine dump;
-    independence: a compatible holder must get inside WHILE another stays inside.
+    independence: a compatible holder must get inside WHILE another stays inside -- also
+    while a THIRD request is waiting for a busy name (the GlobalAcq regression variant of
+    the model, one mutex around every multi-name acquisition, must violate Independent).
+(R2) LockLists.tla: the command layer the anchors name -- every pair of --rlock / --wlock
+    lists over 3 names given to a real pip:run; the locks the runner takes around the body,
+    observed at the shared mutex, must be: each name once, ascending, for writing iff the
+    name is in the write list.
 (T) free-running holders (4-16, random maps over 6 names, random hold times) log
     want / inside / leaving; Trace_NamedLocks.tla checks exclusion on every entry."""
 import json
